@@ -35,6 +35,17 @@ func (c concCase) String() string {
 	return fmt.Sprintf("coroutines {%s} x %d iterations, %d probes each, GOMAXPROCS=%d", strings.Join(a, " | "), c.iters, len(c.probes), c.procs)
 }
 
+// fnOf is the coroutine whose worker function coroutine w runs: the first one with the
+// same arguments.
+func (c concCase) fnOf(w int) int {
+	for u := 0; u < w; u++ {
+		if c.args[u] == c.args[w] {
+			return u
+		}
+	}
+	return w
+}
+
 func concLiteral(kind int8) string {
 	switch kind {
 	case vInt:
@@ -73,13 +84,19 @@ func (c concCase) script() string {
 		fmt.Fprintf(&sb, "function pw%d($o, $val, $want) { try { %s return \"A\"; } catch (\\Throwable $e) { if ($e->getMessage() == $want) { return \"R\"; } return \"X(\" . $e->getMessage() . \")\"; } }\n", m, stmt)
 	}
 	for w, a := range c.args {
-		fmt.Fprintf(&sb, "function work%d($ch, $n, $want) {\n  $r = \"\"; $i = 0;\n  while ($i < $n) {\n    $o = new %s<%s>();\n", w, cs.name, argList(cs, a))
+		if c.fnOf(w) != w {
+			continue // same arguments as an earlier coroutine: it runs that coroutine's function (and `new` node)
+		}
+		// the instantiation is the first thing a coroutine does, so that coroutines running the
+		// same function reach the same `new` node for the first time together
+		fmt.Fprintf(&sb, "function mk%d() { return new %s<%s>(); }\n", w, cs.name, argList(cs, a))
+		fmt.Fprintf(&sb, "function work%d($ch, $n, $want, $id) {\n  $o = mk%d();\n  $r = \"\"; $i = 0;\n  while ($i < $n) {\n", w, w)
 		for _, pr := range c.probes {
 			p, _ := cs.member(int(pr[0]))
 			fmt.Fprintf(&sb, "    $r = $r . pw%d($o, %s, $want[%d]);\n", pr[0], concLiteral(pr[1]), p)
 		}
-		fmt.Fprintf(&sb, "    $r = $r . \";\"; $i = $i + 1;\n  }\n  $ch->send(\"%d \" . $r);\n}\n", w)
-		fmt.Fprintf(&sb, "function start%d($ch, $n, $want) { spawn(function() use ($ch, $n, $want) { work%d($ch, $n, $want); }); }\n", w, w)
+		fmt.Fprintf(&sb, "    $r = $r . \";\"; $i = $i + 1; $o = mk%d();\n  }\n  $ch->send($id . \" \" . $r);\n}\n", w)
+		fmt.Fprintf(&sb, "function start%d($ch, $n, $want, $id) { spawn(function() use ($ch, $n, $want, $id) { work%d($ch, $n, $want, $id); }); }\n", w, w)
 	}
 	sb.WriteString("$want = [];\n")
 	for _, p := range cs.props {
@@ -90,7 +107,7 @@ func (c concCase) script() string {
 	}
 	fmt.Fprintf(&sb, "$ch = new Channel(%d);\n", len(c.args)+1)
 	for w := range c.args {
-		fmt.Fprintf(&sb, "start%d($ch, %d, $want);\n", w, c.iters)
+		fmt.Fprintf(&sb, "start%d($ch, %d, $want, \"%d\");\n", c.fnOf(w), c.iters, w)
 	}
 	for range c.args {
 		sb.WriteString("echo \"RES \", $ch->receive(), \"\\n\";\n")
@@ -121,6 +138,20 @@ func genConcCase(r *rand.Rand, race bool) concCase {
 	c.iters = 1 + r.Intn(25)
 	if race {
 		c.iters = 1 + r.Intn(8)
+	}
+	switch r.Intn(3) {
+	case 0:
+		// one more coroutine running the same function (hence the same `new` node and the same
+		// instantiation object) as coroutine 0
+		c.args = append(c.args, c.args[0])
+	case 1:
+		// burst: two instantiations, each evaluated for the first time by 3..4 coroutines at once
+		c.args = c.args[:2]
+		n := 3 + r.Intn(2)
+		for i := 1; i < n; i++ {
+			c.args = append(c.args, c.args[0], c.args[1])
+		}
+		c.iters = 1 + r.Intn(2)
 	}
 	for m := 0; m < cs.nMembers(); m++ {
 		for v := 0; v < nValsCore; v++ {
@@ -319,6 +350,13 @@ func classifyRace(rep [2][]raceFrame) (key string, sig string) {
 	if sharedDecl {
 		return "shared-decl/race@" + genericFile + ":(*ClassGeneric).GetProperty:SetType", sig
 	}
+	for _, fr := range rep {
+		// one side is the initialisation of a fresh instantiation object: it was handed to
+		// another coroutine (through the `new` node's cache) without synchronisation
+		if len(fr) > 0 && strings.HasSuffix(fr[0].fn, "(*ClassGeneric).Clone") {
+			return "unsafe-publication/race@" + genericFile + ":(*ClassGeneric).Clone", sig
+		}
+	}
 	return "race@" + genericFile + ":" + shortFn(hit.fn), sig
 }
 
@@ -329,7 +367,7 @@ func (d *driver) concurrent() {
 	// plain binary: many runs, functional oracle only
 	{
 		r := e.Rand("conc")
-		n := e.Pick(150, 3000)
+		n := e.Pick(150, 2000)
 		cases := make([]concCase, n)
 		for i := range cases {
 			cases[i] = genConcCase(r, false)
@@ -347,7 +385,7 @@ func (d *driver) concurrent() {
 		return
 	}
 	r := e.Rand("conc-race")
-	n := e.Pick(16, 160)
+	n := e.Pick(16, 120)
 	cases := make([]concCase, n)
 	for i := range cases {
 		cases[i] = genConcCase(r, true)
